@@ -209,10 +209,8 @@ Section DefaultsOutOfSpan.
   Proof.
     intros Hmm Hne Hl Hb. unfold SolveAll.solve_M. replace (max_iter o <? min_iter o) with false by lia.
     cbn [bad_label]. rewrite Hb. unfold SolveAll.iter_periods_M.
-    destruct span as [|x r]; [congruence|]. cbn [length Nat.eqb].
-    unfold py_get, py_pos.
-    replace ((Z.of_nat (lags d) <? - Z.of_nat (length (x :: r))) || (Z.of_nat (length (x :: r)) <=? Z.of_nat (lags d))) with true
-      by (symmetry; apply orb_true_iff; right; apply Z.leb_le; lia).
+    destruct span as [|x r]; [congruence|]. cbn [length Nat.eqb]. cbv zeta.
+    replace (S (length r) <=? lags d)%nat with true by (symmetry; apply Nat.leb_le; exact Hl).
     reflexivity.
   Qed.
 
@@ -224,23 +222,19 @@ Section DefaultsOutOfSpan.
     intros Hmm Hs Hl Hb. pose proof (resolves_start_lt L d span start a Hs) as Ha.
     unfold SolveAll.solve_M. replace (max_iter o <? min_iter o) with false by lia.
     rewrite Hb. cbn [bad_label]. unfold SolveAll.iter_periods_M.
-    replace (length span =? 0)%nat with false by (symmetry; apply Nat.eqb_neq; lia).
-    assert (H1 : exists xs, match start with Some x => Some x | None => py_get span (Z.of_nat (lags d)) end = Some xs).
-    { destruct start as [x|]; [exists x; reflexivity|]. cbn in Hs. destruct Hs as [-> Hlt].
-      destruct (nth_error span (lags d)) as [xs|] eqn:E; [|apply nth_error_None in E; lia].
-      exists xs. unfold py_get. rewrite py_pos_nonneg by lia. rewrite Nat2Z.id. exact E. }
-    destruct H1 as [xs ->].
-    unfold py_get at 1, py_pos.
-    replace ((-1 - Z.of_nat (leads d) <? - Z.of_nat (length span)) || (Z.of_nat (length span) <=? -1 - Z.of_nat (leads d))) with true
-      by (symmetry; apply orb_true_iff; left; apply Z.ltb_lt; lia).
-    reflexivity.
+    replace (length span =? 0)%nat with false by (symmetry; apply Nat.eqb_neq; lia). cbv zeta.
+    replace (Z.of_nat (length span) - 1 - Z.of_nat (leads d) <? 0) with true by lia.
+    destruct start as [x|].
+    - cbn [bad_label] in Hb. destruct (locate x); cbn in Hb; try discriminate; reflexivity.
+    - cbn in Hs. destruct Hs as [-> Hlt].
+      replace (length span <=? lags d)%nat with false by (symmetry; apply Nat.leb_gt; exact Hlt). reflexivity.
   Qed.
 End DefaultsOutOfSpan.
 
 (* ---- the sharp guard: only the labels of the two END periods need to be unambiguous ----
    solve(start, end) = the fold over positions a..b as soon as the label of period a and the label of period b are each
-   carried by exactly one period — other periods may share labels among themselves.  (The kept finding
-   default_range_repeated_label_refuted is exactly the failure of this guard for a DEFAULT end.) *)
+   carried by exactly one period — other periods may share labels among themselves.  (Since fix 7cd6323 a default end
+   needs no guard at all: given_unique / solve_every_span_given below.) *)
 Lemma unique_label_position (span : list Z) x : count_of x span = 1%nat ->
   forall i j, nth_error span i = Some x -> nth_error span j = Some x -> i = j.
 Proof.
@@ -285,19 +279,11 @@ Section UniqueEnds.
     resolves_start Z d span start a -> resolves_end Z d span end_ b ->
     iter_periods_M Z (locate_span k span) d span start end_ = Ret ((S b - a)%nat, periods Z span a b).
   Proof.
-    intros Exs Exe Cs Ce Hs He.
-    pose proof (resolves_start_lt _ _ _ _ _ Hs) as Ha. pose proof (resolves_end_lt _ _ _ _ _ He) as Hb.
-    unfold SolveAll.iter_periods_M.
-    replace (length span =? 0)%nat with false by (symmetry; apply Nat.eqb_neq; lia).
-    assert (H1 : match start with Some x => Some x | None => py_get span (Z.of_nat (lags d)) end = Some xs).
-    { destruct start as [x|]; cbn in Hs; [congruence|]. destruct Hs as [-> _].
-      unfold py_get. rewrite py_pos_nonneg by lia. rewrite Nat2Z.id. exact Exs. }
-    assert (H2 : match end_ with Some x => Some x | None => py_get span (-1 - Z.of_nat (leads d)) end = Some xe).
-    { destruct end_ as [x|]; cbn in He; [congruence|].
-      unfold py_get. rewrite py_pos_neg by lia.
-      replace (Z.to_nat (-1 - Z.of_nat (leads d) + Z.of_nat (length span))) with b by lia. exact Exe. }
-    rewrite H1, H2, (locate_span_unique k span xs a Exs Cs), (locate_span_unique k span xe b Exe Ce).
-    rewrite py_range_nat, py_slice_nat by lia. rewrite map_length, seq_length. reflexivity.
+    intros Exs Exe Cs Ce Hs He. apply iter_periods_given; [| |exact Hs|exact He].
+    - destruct start as [x|]; cbn; [|exact I]. cbn in Hs. assert (x = xs) by congruence. subst x.
+      exact (locate_span_unique k span xs a Exs Cs).
+    - destruct end_ as [x|]; cbn; [|exact I]. cbn in He. assert (x = xe) by congruence. subst x.
+      exact (locate_span_unique k span xe b Exe Ce).
   Qed.
 
   Theorem solve_unique_ends k span d o start end_ s a b xs xe :
@@ -383,3 +369,71 @@ Section UniqueEndsB.
     intros Hi Hc. unfold SolveAll.solve_period_M. rewrite (locate_span_unique k span lab i Hi Hc). reflexivity.
   Qed.
 End UniqueEndsB.
+
+
+(* ---- since fix 7cd6323: guards only for the labels the caller GIVES ----
+   given_unique span x pos: when a label was given (x = Some _), the label of period pos is carried by that period only;
+   for a default (None) nothing is required — defaults are positions, they are never looked up *)
+Definition given_unique (span : list Z) (x : option Z) (pos : nat) : bool :=
+  match x with Some _ => unique_at span pos | None => true end.
+
+Lemma given_unique_ok k span (x : option Z) pos :
+  given_unique span x pos = true -> (match x with Some l => nth_error span pos = Some l | None => True end) ->
+  given_ok Z (locate_span k span) x pos.
+Proof.
+  destruct x as [l|]; cbn; [|intros _ _; exact I]. intros Hu Hn. apply unique_at_spec in Hu as (y & Hy & Hc).
+  assert (y = l) by congruence. subst y. exact (locate_span_unique k span l pos Hn Hc).
+Qed.
+
+Section GivenLabels.
+  Variable num : Type.
+  Variables (sub : num -> num -> num) (absf : num -> num) (ltb : num -> num -> bool)
+            (isfin : num -> bool) (zero : num).
+  Variables (ev before after : hook num).
+  Notation run_periods := (run_periods num sub absf ltb isfin zero ev before after Z).
+  Notation solve_M k span := (solve_M num sub absf ltb isfin zero ev before after Z (locate_span k span)).
+
+  (* iter_periods(start, end) on every supported span type, repeated labels allowed: one (position, label) pair per position from
+     `start` to `end` inclusive — defaults: position lags / position len-1-leads, with NO condition on the labels *)
+  Theorem iter_periods_every_span_given k span d start end_ a b :
+    given_unique span start a = true -> given_unique span end_ b = true ->
+    resolves_start Z d span start a -> resolves_end Z d span end_ b ->
+    iter_periods_M Z (locate_span k span) d span start end_ = Ret ((S b - a)%nat, periods Z span a b).
+  Proof.
+    intros Us Ue Hs He. apply iter_periods_given; [| |exact Hs|exact He].
+    - apply (given_unique_ok k span start a Us). destruct start; cbn in Hs; [exact Hs|exact I].
+    - apply (given_unique_ok k span end_ b Ue). destruct end_; cbn in He; [exact He|exact I].
+  Qed.
+
+  Theorem solve_every_span_given k span d o start end_ s a b :
+    min_iter o <= max_iter o ->
+    given_unique span start a = true -> given_unique span end_ b = true ->
+    resolves_start Z d span start a -> resolves_end Z d span end_ b ->
+    solve_M k span d o span start end_ s =
+    match run_periods d o (periods Z span a b) s [] with
+    | (s', Ret vs) => (s', Ret (mkRes (S b - a) vs))
+    | (s', Raise e) => (s', Raise e)
+    end.
+  Proof.
+    intros Hmm Us Ue Hs He.
+    apply (solve_eq_fold_given num sub absf ltb isfin zero ev before after Z (locate_span k span) d o span start end_ s a b Hmm);
+      [| |exact Hs|exact He].
+    - apply (given_unique_ok k span start a Us). destruct start; cbn in Hs; [exact Hs|exact I].
+    - apply (given_unique_ok k span end_ b Ue). destruct end_; cbn in He; [exact He|exact I].
+  Qed.
+
+  (* solve() with default start and end: EVERY span, whatever its labels (repeated, falsy, anything), is solved from position lags
+     to position len-1-leads *)
+  Corollary solve_defaults_any_span k span d o s :
+    min_iter o <= max_iter o -> (lags d + leads d < length span)%nat ->
+    solve_M k span d o span None None s =
+    match run_periods d o (periods Z span (lags d) (length span - 1 - leads d)) s [] with
+    | (s', Ret vs) => (s', Ret (mkRes (S (length span - 1 - leads d) - lags d) vs))
+    | (s', Raise e) => (s', Raise e)
+    end.
+  Proof.
+    intros Hmm Hl. apply solve_every_span_given; [exact Hmm|reflexivity|reflexivity| |].
+    - cbn. split; [reflexivity|lia].
+    - cbn. lia.
+  Qed.
+End GivenLabels.
